@@ -129,6 +129,15 @@ pub struct HandlerShared {
     pub outstanding_opens: HashSet<u64>,
     /// tags of held streams marked ignore_for_keep_alive
     pub ignored: HashSet<u64>,
+    /// graceful-close script: `poll_close` first returns Pending (waking itself) this many times ...
+    pub close_pending_left: u32,
+    /// ... then emits this many final events (seq = close_seq_base + k), then `Ready(None)`
+    pub close_events_left: u32,
+    pub close_seq_base: u64,
+    /// seqs of the final events `poll_close` has handed out so far
+    pub close_emitted: Vec<u64>,
+    /// 0 = poll_close never called, 1 = last call returned Pending/an event (more to come), 2 = returned Ready(None)
+    pub close_state: u8,
     waker: Option<Waker>,
 }
 
@@ -235,8 +244,23 @@ impl ConnectionHandler for ProbeHandler {
         Poll::Pending
     }
 
-    fn poll_close(&mut self, _: &mut Context<'_>) -> Poll<Option<ProbeOut>> {
-        self.shared.lock().unwrap().log.push(HEv::PollClose);
+    fn poll_close(&mut self, cx: &mut Context<'_>) -> Poll<Option<ProbeOut>> {
+        let mut h = self.shared.lock().unwrap();
+        h.log.push(HEv::PollClose);
+        if h.close_pending_left > 0 {
+            h.close_pending_left -= 1;
+            h.close_state = 1;
+            cx.waker().wake_by_ref();
+            return Poll::Pending;
+        }
+        if h.close_events_left > 0 {
+            h.close_events_left -= 1;
+            h.close_state = 1;
+            let seq = h.close_seq_base + h.close_emitted.len() as u64;
+            h.close_emitted.push(seq);
+            return Poll::Ready(Some(ProbeOut { origin: h.tag, seq }));
+        }
+        h.close_state = 2;
         Poll::Ready(None)
     }
 
@@ -305,6 +329,8 @@ pub struct ProbeShared {
     /// config for handlers created from now on
     pub default_protocols: Vec<String>,
     pub default_keep_alive: bool,
+    /// graceful-close script of handlers created from now on: (Pending returns, final events) of `poll_close`
+    pub default_close_plan: (u32, u32),
     /// established connections as the behaviour was told (for emission-time snapshots)
     pub established: HashMap<PeerId, Vec<ConnectionId>>,
     /// snapshot of `established[peer]` taken at the instant each NotifyHandler left `poll`
@@ -367,6 +393,7 @@ impl Probe {
             handlers: HashMap::new(),
             default_protocols: vec![format!("/probe/{tag}")],
             default_keep_alive: true,
+            default_close_plan: (0, 0),
             established: HashMap::new(),
             emitted: vec![],
             emitted_already_closing: vec![],
@@ -401,6 +428,11 @@ impl Probe {
             dropped: false,
             outstanding_opens: HashSet::new(),
             ignored: HashSet::new(),
+            close_pending_left: s.default_close_plan.0,
+            close_events_left: s.default_close_plan.1,
+            close_seq_base: 1_000_000_000 + (s.handlers.len() as u64) * 64 + (s.tag as u64) * 100_000_000,
+            close_emitted: vec![],
+            close_state: 0,
             waker: None,
         }));
         s.handlers.insert(conn, HandlerCtl(h.clone()));
